@@ -307,6 +307,11 @@ def call(ex, n, st, q, rd, objn, argn, method, want_lv):
             return LElem(o.name, i.t, '', parse_type(n['type']))
         if name == 'reset':
             return VoidV()
+        if name in ('operator==', 'operator!=') and argn:
+            other = ex.ev(argn[0], st)
+            if isinstance(other, PtrV) and other.region is None and isinstance(o, ObjRef):
+                isnull = o.null if o.null is not None else z3.BoolVal(False)
+                return BoolV(isnull if name == 'operator==' else z3.Not(isnull))
         raise ExtractionError(f'{ex.unit}: smart pointer method {name} not modelled')
     if kind == 'vector':
         o = ex.ev_obj(objn, st)
@@ -937,6 +942,8 @@ def default_construct(ex, st, d, ct):
         return ObjRef(name, ct.name)
     if k == 'string':
         return Opaque('string')
+    if k in ('sptr', 'uptr'):
+        return ObjRef(name, ct.name, null=z3.BoolVal(True))       # default-constructed smart pointer: null
     raise ExtractionError(f'{ex.unit}: default construction of local {ct.name}')
 
 
